@@ -176,6 +176,13 @@ def run(vc):
                 removed = [e for e in log if e[0] == "remove_node"]
                 if incl_oos:
                     p.prove(f"nodes[{tag}]:out-of-service-buses-kept", not removed, meta=dict(part="nodes"))
+                else:
+                    # the generic bus: if it is out of service and a node of the graph, this path has removed it
+                    oos_node = z3.And(z3.Not(to_z(bus.cols["in_service"])), z3.Bool("opaque_truth[node in graph]"))
+                    own = [e for e in removed if len(e[1]) == 1 and isinstance(e[1][0], SV) and z3.eq(z3.simplify(to_z(e[1][0], I)),
+                                                                                                    z3.simplify(to_z(bus.index_e, I)))]
+                    p.prove(f"nodes[{tag}]:every-out-of-service-bus-is-removed", z3.BoolVal(True) if own else z3.Not(oos_node), meta=dict(part="nodes"),
+                            note="whatever else holds (number of nodes, nogobuses): an out-of-service bus does not stay in the graph")
             vc.explore(f"create_nxgraph[respect={respect},oos={incl_oos}]", h, max_paths=3000)
 
     def h_dist(p):
@@ -211,6 +218,9 @@ def classify(ob, model):
 
 
 def replay(ob, model, finding=None):
+    if ob.meta.get("part") == "nodes":
+        return {"script": f"# replay of {ob.id}\nfrom replaylib.topology import main_nodes\nmain_nodes()\n",
+                "description": "create_nxgraph on a chain with two out-of-service buses and several nogobuses sets: node set and connected components"}
     return {"script": f"# replay of {ob.id}\nfrom replaylib.topology import main\nmain()\n",
             "description": "create_nxgraph edges against an independent edge enumeration, distances against Bellman-Ford on the element tables "
                            "(parallel lines of different length, open switches of all kinds, out-of-service elements)"}
